@@ -36,6 +36,12 @@ class HookNone(VariablePayload):
         return 0 if value is None else value
 
 
+class BitsTwice(VariablePayload):
+    """two 'bits' groups with ordinary fields between and after them: field positions are a running index, not a fixed shift"""
+    format_list = ["bits", "H", "bits", "I", "varlenH"]
+    names = ["a0", "a1", "a2", "a3", "a4", "a5", "a6", "a7", "mid", "b0", "b1", "b2", "b3", "b4", "b5", "b6", "b7", "n", "tail"]
+
+
 class DefStr(VariablePayload):
     format_list = ["I", "varlenHutf8"]
     names = ["a", "s"]
